@@ -39,7 +39,7 @@ ASSUMPTIONS = [
     "content equality (a) is equality of the library's own XML dump applied symmetrically to original and saved table bytes (faithfulness of the dump is C03's property), cross-checked by spec-written readers for name / hmtx / vmtx and by a HarfBuzz before/after differential for outlines, advances and cmap",
     "derived fields the library documents as recomputed on compile are masked in (a) only: head.checkSumAdjustment, OS/2 usFirstCharIndex/usLastCharIndex, post extraNames that are standard Macintosh names; with recalcBBoxes=True also head/glyph bboxes, head.flags bit 1 (set by maxp.recalc from 'every xMin equals its lsb'), hhea/vhea extents, maxp maxima, CFF FontBBox; their correctness is C04's job",
     "fields that only describe the chosen encoding are masked in (a) as well: head.indexToLocFormat, hhea.numberOfHMetrics / vhea.numberOfVMetrics, and the length= / nGroups= attributes of cmap subtables; the meaning they encode is judged by the spec-level readers (cmap mapping per subtable, expanded hmtx/vmtx metrics, post glyph names, name records, composite components) and by HarfBuzz / FreeType",
-    "foreign-writer inputs (vmon/gen/c01_foreign.py, assembled by the spec-level sfnt writer in oracle/c01_sfntdir.py, no fontTools involved): cmap format 4 with glyphIdArray segments carrying a non-zero idDelta, 0 entries and shared glyphIdArray ranges, format 12 in odd group splits, one subtable referenced by two encoding records; glyf slots with padding and the other loca format; hmtx untrimmed / maximally trimmed / with trailing bytes; name records over shared and overlapping string storage, with a gap between the records and the storage (format 0 only: format 1 langTag records are not generated, see notes/pending_findings.md); GPOS SinglePos format 2 / PairPos format 1 whose Coverage format 2 ranges carry non-monotonic StartCoverageIndex, and SinglePos format 1 with hinting Device tables of DeltaFormat 1/2/3 whose delta count is not a multiple of the word capacity and whose trailing partial word / leading word is all zero (judged by a spec-level reader of positioning values and Device deltas); post format 2 with custom names stored out of glyph order plus an unused name. A foreign cmap/post input is used only if the spec-level reader, HarfBuzz and FreeType agree on its meaning (else the case is inconclusive)",
+    "foreign-writer inputs (vmon/gen/c01_foreign.py, assembled by the spec-level sfnt writer in oracle/c01_sfntdir.py, no fontTools involved): cmap format 4 with glyphIdArray segments carrying a non-zero idDelta, 0 entries and shared glyphIdArray ranges, format 12 in odd group splits, one subtable referenced by two encoding records; glyf slots with padding and the other loca format; hmtx untrimmed / maximally trimmed / with trailing bytes; name records over shared and overlapping string storage, with a gap between the records and the storage (a minority as format 1 with 1-3 langTag records and records with langID >= 0x8000: the library drops those records - known finding C01-name-format1-langtags-dropped, reported under its own mechanism only when the format field goes 1 -> 0 and the langTag records vanish while all name records are intact); GPOS SinglePos format 2 / PairPos format 1 whose Coverage format 2 ranges carry non-monotonic StartCoverageIndex, and SinglePos format 1 with hinting Device tables of DeltaFormat 1/2/3 whose delta count is not a multiple of the word capacity and whose trailing partial word / leading word is all zero (judged by a spec-level reader of positioning values and Device deltas); post format 2 with custom names stored out of glyph order plus an unused name. A foreign cmap/post input is used only if the spec-level reader, HarfBuzz and FreeType agree on its meaning (else the case is inconclusive)",
     "boundary-sized inputs (vmon/gen/c01_boundary.py, struct-level edits assembled by the spec-level sfnt writer): CFF local Subrs INDEX padded with one never-called subroutine to exactly 254..257 / 65534..65537 bytes of object data (only where that INDEX is the table's last structure), HVAR advance-width maps over an ItemVariationData with 100/256/257/300/1000 rows, and a cmap whose four Unicode subtables disagree on some code points together with post 3.0 (glyph names synthesised from the cmap clash 3-4 ways); judged by the spec-level INDEX reader (well-formed, same item counts), the spec-level DeltaSetIndexMap reader (expanded to numGlyphs) and HarfBuzz outlines / advances at non-default locations",
     "HarfBuzz translates a top-level glyf outline by (lsb - header xMin): with recalcBBoxes=True a glyph whose header xMin changed (struct-level read) may differ by exactly that uniform horizontal translation and nothing else",
     "generated inputs (spec-written, vmon/gen/c01_gpos.py and c01_glyf.py): a GPOS with PairPos format 1/2 record arrays above the lazy-array threshold under different ValueFormats, and composite glyphs carrying every preservable component flag and transform form written into the binary glyf by struct-level surgery (non-variable glyf hosts; composites reference only glyphs that stay simple)",
@@ -919,7 +919,19 @@ def _struct_diff(ctx, orig, new, label, case=None):
         if ra is not None:
             ctx.judged()
             ctx.note("struct-level:name")
-            if sorted(ra) != sorted(rb_) or la != lb:
+            records_same = sorted(ra) == sorted(rb_)
+            if fa == 1 and fb == 0 and la and not lb:
+                # positively identified from the format field and langTagCount: a format 1 table came
+                # back as format 0 without its language-tag records (known finding, matched on this mech)
+                bad = True
+                ctx.note("name-format1-langtags-dropped")
+                ctx.violation({"kind": "name-format1", "what": "langtag-records-dropped"},
+                              "%s: name table format 1 was saved as format 0; its %d language-tag record(s) are gone while "
+                              "records with langID >= 0x8000 remain" % (label, len(la)),
+                              {"langTags": [t.decode("utf-16-be", "replace") for t in la],
+                               "records_using_them": sum(1 for k, _r in ra if k[2] >= 0x8000)})
+                la = lb = None          # accounted for; anything else below keeps its usual mechanism
+            if not records_same or la != lb:
                 bad = True
                 ctx.violation({"kind": "struct-content", "table": "name"},
                               "%s: spec-written reader finds different name records after load+save" % label,
